@@ -12,8 +12,12 @@ Decided (the four links every acknowledged operation traverses, on all CFG paths
             records_after(header.wal_sequence) and applies exactly those.
   MPT-C01e  drop => commit: <Memvid as Drop>::drop calls commit on the dirty edge; put_internal / delete_frame store
             `dirty = true` after the append on every Ok path; commit* clears dirty only after the checkpoint.
+  FLOW-C01f in-place block moves of the memory file (shift_data_for_wal_growth moves every committed byte when the WAL
+            grows) walk away from their destination: a right shift (dst = src + unsigned) visits blocks tail-first,
+            a left shift head-first (memmove rule; sign abstraction over the loop's linear position forms - a forward
+            walk of a right shift overwrites blocks it has not read yet as soon as the region exceeds the shift).
 Not decided: equality with a reference model over histories (runtime values)."""
-from . import lib
+from . import lib, monotone, effects
 from .facts import Place, op_place
 
 CHECKPOINT_CALLERS = {
@@ -60,6 +64,7 @@ def run(ctx):
     ctx.rule('MPT-C01b', 'record_checkpoint is dominated by apply_records success on the WAL\'s own records')
     ctx.rule('WMC-C01c', 'callers of record_checkpoint/apply_records are the reviewed table')
     ctx.rule('MPT-C01d', 'open_locked: Ok only after recover_wal; recover_wal replays records_after(header.wal_sequence)')
+    ctx.rule('FLOW-C01f', 'in-place file block moves walk away from the destination (right shift tail-first, left shift head-first)')
     ctx.rule('MPT-C01e', 'Drop commits when dirty; dirty=true after every acknowledged append; dirty cleared only after checkpoint')
     F = ctx.facts()
     # ---------------- C01a
@@ -247,3 +252,26 @@ def run(ctx):
                     ctx.ok('MPT-C01e', fn, 'dirty cleared only after the checkpoint succeeded', line=s['line'])
                 else:
                     ctx.bad('MPT-C01e', fn, 'dirty is cleared before the checkpoint succeeded', line=s['line'], detail='dirty-cleared-early')
+    # ---------------- C01f
+    n_moves = 0
+    for fn in F.fns.values():
+        if fn.r.get('derive'):
+            continue
+        if not any(c.name in ('read_exact', 'read') for c in fn.calls()) or not any(c.name in ('write_all', 'write') for c in fn.calls()):
+            continue
+        for m in monotone.move_direction(fn, effects.is_memory_handle):
+            ctx.evaluations += 1
+            n_moves += 1
+            ctx.touch(fn, len(fn.blocks))
+            if m['ok'] is None:
+                if fn.key == 'Memvid::shift_data_for_wal_growth':
+                    ctx.lost('FLOW-C01f', 'shift_data_for_wal_growth: direction of the in-place move not recognised (%s)' % m['why'])
+                else:
+                    ctx.candidate('FLOW-C01f', fn, 'in-place read/write loop on the memory file whose direction is not recognised (%s)' % m['why'], line=m['read'].line,
+                                  detail='move-direction-unknown')
+            elif m['ok']:
+                ctx.ok('FLOW-C01f', fn, 'in-place %s shift walks %s (away from the destination)' % (m['shift'], m['walk']), line=m['read'].line)
+            else:
+                ctx.bad('FLOW-C01f', fn, 'in-place %s shift walks %s: once the moved region is longer than the shift, blocks are overwritten before they are read '
+                        '(committed bytes behind the WAL are clobbered)' % (m['shift'], m['walk']), line=m['write'].line, detail='overlapping-move-direction')
+    ctx.floor('FLOW-C01f', n_moves, 1, 'in-place block-move loops on the memory file (WAL growth shift)')
